@@ -647,9 +647,15 @@ impl ISocket for RouterSocket {
         .strategy
         .prepare_wire_frames(destination_identity_msg, frames, &self.framing);
 
-    // Final flag setting on the last frame
-    if let Some(last_frame) = zmtp_wire_frames.last_mut() {
-      last_frame.set_flags(last_frame.flags() & !MsgFlags::MORE);
+    // One send_multipart call is one logical message: MORE on every frame but the last, whatever
+    // flags the application left on the payload frames (as PUSH, PUB, DEALER and REP do).
+    let num_wire_frames = zmtp_wire_frames.len();
+    for (i, frame) in zmtp_wire_frames.iter_mut().enumerate() {
+      if i < num_wire_frames - 1 {
+        frame.set_flags(frame.flags() | MsgFlags::MORE);
+      } else {
+        frame.set_flags(frame.flags() & !MsgFlags::MORE);
+      }
     }
 
     // 5. Send the message.
